@@ -593,9 +593,9 @@ func c08Levels(tier string) []core.Level {
 			}
 		}},
 	}
-	lv = append(lv, core.Level{Name: "repetition: 7 capturing constructs (block() once / twice and filtered / collected in a list, a macro call, a set-capture, a filter section, parent()) evaluated 0..6 times in a loop - alone and inside an outer loop of 2 - with the loop variable as their input: every evaluation captures what it produces then", Gen: func(emit func(core.Case)) {
+	lv = append(lv, core.Level{Name: "repetition: 7 capturing constructs (block() once / twice and filtered / collected in a list, a macro call, a set-capture, a filter section, parent()) evaluated 0..6, 99..102, 150, 257 and 1000 times in a loop - alone and inside an outer loop of 2 - with the loop variable as their input: every evaluation captures what it produces then", Gen: func(emit func(core.Case)) {
 		for kind := 0; kind < 7; kind++ {
-			for n := 0; n <= 6; n++ {
+			for _, n := range []int{0, 1, 2, 3, 4, 5, 6, 99, 100, 101, 102, 150, 257, 1000} {
 				for nest := 0; nest < 2; nest++ {
 					emit(core.Case{Fam: "repeat", N: []int{kind, n, nest}})
 				}
